@@ -21,10 +21,10 @@ def run(tier, seed):
     ctx.assumptions = [
         "i64 values are anchored integers k*2^62+r; division and bitwise operators are only enumerated for small operands (plus x/0 and MIN/-1)",
         "string relations come from a generated table over {\"\", a, ab, b, re, ad, read} (spec/gen_exprstr.py -> spec/ExprStr.tla; read is one of the default symbols of every symbol table); regular expressions are literal patterns only",
-        "errors are compared as a class (the property does not fix the variant); extern functions are outside the universe",
+        "errors are compared as a class (the property does not fix the variant); extern functions: a registry of five functions fixed by the spec (id, second, fail, sym, isint) plus unregistered names",
     ]
     total = 0
-    for fam in ("binary", "unary", "stack", "closure", "compose"):
+    for fam in ("binary", "unary", "stack", "closure", "compose", "extern"):
         c = {"StrFacts": "<- StrFactsC", "Family": '"%s"' % fam, "ExportOn": True}
         cfg = vlib.write_cfg(os.path.join(ctx.work, fam + ".cfg"), c, INV + ["Export"])
         res = ctx.tlc("ExprMC", cfg, name=fam, tags=("EXPR",), seed=seed)
@@ -39,7 +39,8 @@ def run(tier, seed):
              "4 sets; 4 arrays incl. nested; 3 maps); `unary` = 4 x 32; `stack` = every operation sequence of length <= 3 over an 8-symbol alphabet "
              "(underflow, leftovers, misplaced closures); `closure` = lazy operators x erroring / non-boolean right sides, all/any over sets, arrays, maps "
              "and non-collections, wrong arity, nesting, shadowing of outer parameters and of rule variables; `compose` = a string computed by concatenation compared (4 equality operators, "
-             "contains, get) with the same or another string written as a literal, held in an array / set / map key, bound by the rule, or computed too. TLC checks totality, type strictness "
+             "contains, get) with the same or another string written as a literal, held in an array / set / map key, bound by the rule, or computed too; `extern` = registered and "
+             "unregistered extern functions with one and two arguments, a result that is a default symbol, results fed to other operators, closures as arguments, calls under lazy operators and quantifiers. TLC checks totality, type strictness "
              "(Accepts table), laziness; every state is evaluated by Expression::evaluate and value-or-error must equal the spec's; "
              "every state is also evaluated END TO END: the expression is put in a check of a token's authority block and of the authorizer (builders, symbol tables, wire format, "
              "rule engine): `E == v` must pass and `E != v` fail for the spec's value v, and a spec error must surface as an evaluation error of authorize(). %d cases." % total,
